@@ -23,6 +23,52 @@ add("C14", "mb2-check", "bounded-exhaustive enumeration + property-based testing
     "Complete enumeration of slice length x misalignment x declared size for five header kinds, generated larger slices, and the rounding function over all 2^32 arguments (thorough, release).",
     "enumerated header fields of the header-crate headers hold defined values", "DESIGN.md §4 C14")
 
-for i in ["C04","C05","C06","C07","C08","C09","C10","C11","C12","C13","C15","C16","C17","C18","C19","C20"]:
+add("C04", "mb2-check", "property-based differential against the reference decoder over encoder-built conformant regions",
+    "Spec-conformant boot informations whose every field byte is a distinct marker are decoded through every getter and accessor in dev and release builds and compared line by line with the reference model (first-match selection, every field's offset/width, EFI-map withholding, all 256 framebuffer type bytes).",
+    "conformance constraints of the generator (entry size 24, EFI version 1, VBE memory model 0..=7, RSDP length 36) are part of the quantifier", "DESIGN.md §4 C04")
+add("C05", "mb2-check+sandbox", "bounded-exhaustive size sweep + property-based differential against the total reference model",
+    "Every declared size 0..=image+16 for each variable-length kind (both crates) with marker padding/neighbour, plus adversarial regions compared in full with the total model.",
+    "network contents and EFI-map length are observed through Debug output because the crate has no accessor for them", "DESIGN.md §4 C05")
+add("C06", "mb2-check", "model-based testing of builder call histories; exhaustive subset enumeration; round-trip through load",
+    "Generated call histories and all singletons/pairs/triples, plus all 2^14 (quick) / 2^22 (thorough) subsets, are built, loaded and compared as a multiset with the model of the builder.",
+    "tag images are captured from the supplied tags themselves (the statement compares against the supplied tag), constructors' documented preconditions are respected", "DESIGN.md §4 C06")
+add("C07", "mb2-check", "property-based testing of constructors against an independent encoder (round-trip + differential)",
+    "All 38 public constructors with byte-marked/boundary/random arguments and every content length 0..=40 compared with the independent little-endian encoder, the ID constants, accessor read-back and placement probes for as_bytes().",
+    "padding bytes inside argument structures (EFIMemoryDesc) are masked; constructor preconditions respected", "DESIGN.md §4 C07")
+add("C09", "mb2-check+sandbox", "property-based testing over generated adversarial headers in a guard-page sandbox; extent oracle",
+    "As C01 for multiboot2-header: adversarial headers with defined enumerated fields are loaded and fully exercised in a forked child flush against PROT_NONE pages.",
+    "enumerated fields are rewritten to defined values by the generator (the statement's precondition); guard pages are byte-exact on the flush side only", "DESIGN.md §4 C09")
+add("C10", "mb2-check+sandbox", "bounded-exhaustive + property-based testing of load() against the decision table; exhaustive 2^32 loop for the checksum law",
+    "Every length 0..=80 (256) x architectures x 11 magics x 3 checksum deltas and generated lengths to 1 MiB against the precedence table; the checksum congruence for all 2^32 lengths x 2 architectures x 4 magics (thorough, release).",
+    "lengths above 1 MiB are not mapped for load(); the checksum law covers them", "DESIGN.md §4 C10")
+add("C11", "mb2-check", "property-based differential against the reference decoder over encoder-built valid headers",
+    "Valid headers with marker field bytes decoded through all accessors/getters/iterator and compared line by line with the reference model.",
+    "enumerated fields in range by construction", "DESIGN.md §4 C11")
+add("C12", "mb2-check", "exhaustive subset enumeration + model-based call histories; round-trip through load",
+    "All 2^10 subsets x 2 architectures in every tier plus generated histories: alignment, load, magic, arch, length, checksum, tag multiset, terminating end tag.",
+    "tag images captured from the supplied tags", "DESIGN.md §4 C12")
+add("C13", "mb2-check+sandbox", "bounded-exhaustive + property-based testing of find_header against a reference search",
+    "Every buffer length around 0 and around the 8192 window with magics planted at every boundary position and stored lengths at/over the end, plus generated buffers to 16 KiB, compared with the reference search by address and length.",
+    "any Err variant is accepted where the statement says 'an error'", "DESIGN.md §4 C13")
+add("C15", "mb2-check+sandbox", "bounded-exhaustive enumeration over a family of user-defined tag types and all built-in kinds",
+    "27 harness-defined sized/DST tag types x every tag size 8..=96 through get_tag and cast, and all 22 built-in kinds x sizes, checking address, size_of_val and aliasing or a panic; exact fits must be accepted.",
+    "the family's BASE_SIZE/dst_len are truthful by construction", "DESIGN.md §4 C15")
+add("C16", "mb2-check", "bounded-exhaustive + property-based testing under a recording global allocator",
+    "Every composition of content length 0..=12 into 0..=4 slices x 4 targets and generated larger ones: one allocation of the exact layout, exact byte layout, one matching deallocation, clone identity; clone_dyn of all 11 DST kinds at content lengths 0..=40.",
+    "single-threaded harness; the allocator log is armed around a single call", "DESIGN.md §4 C16")
+add("C17", "mb2-check", "bounded-exhaustive enumeration over small alphabets + property-based round-trip",
+    "All strings over a 4-character alphabet up to length 5 (6) through the three constructors, and all byte strings over a 6-byte alphabet up to length 5 (6) x every declared-size cut through the parsers, against the NUL/UTF-8 rule of the statement.",
+    "in-process: string parsing is slice-bounded safe code", "DESIGN.md §4 C17")
+add("C18", "mb2-check+sandbox", "bounded-exhaustive + property-based testing against the reference descriptor walk in a guard-page sandbox",
+    "Descriptor size 0..=128 x version x count x length slack, and generated maps: valid combinations decode exactly with exact remaining-length reports; all others must panic before completing and never produce a misplaced descriptor.",
+    "where the statement leaves the rejection point open (memory_areas() vs next()) both are accepted", "DESIGN.md §4 C18")
+add("C19", "mb2-check+sandbox", "bounded-exhaustive + property-based testing against the reference ELF32/ELF64 decoder in a guard-page sandbox",
+    "Entry count x entry size x table length x string-table index x raw type classes, and generated tables: fitting tags yield exactly the in-use entries with decoded fields and names; others must be rejected by a panic without reading outside.",
+    "section names live in harness-owned memory the tag points at (documented external address)", "DESIGN.md §4 C19")
+add("C20", "mb2-check", "exhaustive 2^32 enumeration (thorough) / stratified sampling (quick) of conversion laws",
+    "All conversion, naming and equality laws for every 32-bit value, ELF type classification through the public iterator for all 2^32 raw values, all 256 framebuffer type bytes, both magics.",
+    "the exhaustive sweep runs in the release build; the dev build runs the stratified sample", "DESIGN.md §4 C20")
+
+for i in ["C08"]:
     if i not in CHECKS:
         NOT_APPLICABLE[i] = PENDING
